@@ -75,6 +75,58 @@ def run(ctx, F, cg):
             else:
                 ctx.violation("L7", "cypher_order|delegation|%d|nan-not-decided" % k_, where(co, d_.line),
                               "cypher_order hands the pair to Ord::cmp without first testing both values for NaN on every path (NaN is decided only inside a (Float, Float) arm): Integer vs Float(-NaN) is then ordered by total_cmp, giving 1.0 < -NaN < 0 < 1.0")
+    ctx.rule("L8", "a comparator never returns the bare result of comparing an integer through a lossy cast to float: distinct integers above 2^53 round to one float, so `(i as f64).total_cmp(f)` as the final answer ties values that still order against each other (Ord breaks such ties; cypher_order must delegate)")
+    ctx.rule("L9", "Ord agrees with the derived field-wise equality: the diagonal arm of a multi-field variant compares the fields one by one and does no arithmetic on them (folding seconds and nanos into one number makes unequal durations compare Equal, and the B-tree index keyed by Ord collapses them)")
+    for r in comps:
+        m_ = F.mir(r["path"])
+        if not m_:
+            continue
+        bb_ = Body(m_, r)
+        short_ = r["path"].replace("samyama::graph::property::", "").replace("<samyama::graph::property::", "<")
+        # L8: origins of the return place that are total_cmp / partial_cmp calls fed by an IntToFloat cast
+        og0 = bb_.origins(0, through_calls=lambda cc: None)
+        direct = [o[1] for o in og0 if o[0] == "call" and o[1].path.rsplit("::", 1)[-1] in ("total_cmp", "partial_cmp", "cmp") and ("f64" in o[1].path or "f32" in o[1].path)]
+        lossy = []
+        for c in direct:
+            for a in c.args[:2]:
+                if a[0] == "k":
+                    continue
+                for x in bb_.origins(a[1][0], through_calls=lambda cc: None):
+                    if x[0] == "other" or x[0] == "bin":
+                        continue
+                for d in bb_.defs().get(a[1][0], []):
+                    src = d
+                    # follow one ref/copy level
+                    if d[0] == "stmt" and d[4][0] in ("ref", "use"):
+                        base = d[4][2][0] if d[4][0] == "ref" else (d[4][1][1][0] if d[4][1][0] != "k" else None)
+                        for d2 in bb_.defs().get(base, []) if base is not None else []:
+                            if d2[0] == "stmt" and d2[4][0] == "cast" and d2[4][1] == "IntToFloat":
+                                lossy.append(c)
+                    if d[0] == "stmt" and d[4][0] == "cast" and d[4][1] == "IntToFloat":
+                        lossy.append(c)
+        if lossy:
+            ctx.violation("L8", "%s|bare-lossy-comparison" % short_, where(r, lossy[0].line), "%s returns `%s` of an integer cast to float as its final answer: Integer(2^53) and Integer(2^53+1) both tie with Float(2^53) while ordering against each other, so ties are not transitive" % (short_, lossy[0].path.rsplit("::", 1)[-1]))
+        else:
+            ctx.ok("L8", short_, "no float comparison of a cast integer is returned bare")
+    cmpf_ = F.trait_impl_fn("PropertyValue", "cmp::Ord", "cmp")
+    cb_ = Body(F.mir(cmpf_["path"]), cmpf_)
+    adt_ = F.adt("graph::property::PropertyValue")
+    multi = {v["name"] for v in adt_["variants"] if len(v["fields"]) >= 2}
+    ctx.floor("L9", "multi-field variants of PropertyValue", len(multi), 1)
+    for m_ in [x for x in F.arms(cmpf_["path"]) if x["sty"].startswith("(&" + PV)][:1]:
+        for arm in m_["arms"]:
+            for p_ in pats(arm["pat"]):
+                if p_.get("k") != "tuple" or len(p_["e"]) != 2:
+                    continue
+                a_, b2_ = vname(p_["e"][0]), vname(p_["e"][1])
+                if a_ is None or a_ != b2_ or a_ not in multi:
+                    continue
+                lo, hi = arm["lo"], arm["hi"]
+                arith = [line for i, j, pl, rv, line, exp in cb_.stmts() if lo <= line <= hi and rv[0] == "bin" and rv[1] in ("Mul", "MulWithOverflow", "Add", "AddWithOverflow", "Sub", "SubWithOverflow", "Div", "Rem", "Shl", "Shr")]
+                if arith:
+                    ctx.violation("L9", "Ord::cmp|%s|fields-combined" % a_, where(cmpf_, arith[0]), "the (%s, %s) arm of Ord::cmp does arithmetic on the fields before comparing (line %d): two values whose fields differ can compare Equal although the derived == and the hash tell them apart" % (a_, a_, arith[0]))
+                else:
+                    ctx.ok("L9", "Ord::cmp|%s" % a_, "fields compared one by one")
     adt = F.adt("graph::property::PropertyValue")
     variants = [v["name"] for v in adt["variants"]]
     has_float = any(f[1] in ("f64", "f32") or "f32" in f[1] or "f64" in f[1] for v in adt["variants"] for f in v["fields"])
